@@ -339,16 +339,17 @@ pub fn run(rep: &Report) {
     let quick = rep.quick();
     let ia = issuer_alphabet();
     let ha = holder_alphabet();
-    let full_len = if quick { 4 } else { 5 };
+    let full_len = if quick { 4 } else { 6 };
     // issuer: full alphabet
     let seqs = sequences(ia.len(), full_len);
     par_for(rep, seqs.len(), |i, l| run_issuer_seq(&ia, &seqs[i], Alg::HS256, l));
     rep.scope_done(json!({"scope": format!("issuer: every sequence of length <= {full_len} over the 12-operation alphabet (8 succeeding, 4 failing), HS256 issuer key"), "sequences": seqs.len()}));
     rep.sample(json!({"instance": "issuer", "sequence": seqs[seqs.len() / 2].iter().map(|i| ia[*i].name).collect::<Vec<_>>()}));
     // issuer: long sequences over a small core
-    let core_ids: Vec<usize> = if quick { vec![6, 3, 2] } else { vec![6, 3, 2, 4] };
+    let core_ids: Vec<usize> = if quick { vec![6, 3, 2] } else { vec![6, 3, 2, 4, 8] };
+    let long_len = if quick { 8 } else { 9 };
     let core: Vec<IssOp> = core_ids.iter().map(|i| ia[*i].clone()).collect();
-    let long = sequences(core.len(), 8);
+    let long = sequences(core.len(), long_len);
     for alg in [Alg::ES256, Alg::EdDSA] {
         par_for(rep, long.len(), |i, l| {
             if long[i].len() > full_len {
@@ -356,7 +357,7 @@ pub fn run(rep: &Report) {
             }
         });
     }
-    rep.scope_done(json!({"scope": format!("issuer: every sequence of length {}..8 over a {}-operation core (compact+cnf+decoys / json plain / failing{}), ES256 and EdDSA issuer keys", full_len + 1, core.len(), if quick { "" } else { " / custom" }), "sequences": long.len() * 2}));
+    rep.scope_done(json!({"scope": format!("issuer: every sequence of length {}..{long_len} over a {}-operation core (compact+cnf+decoys / json plain / failing{}), ES256 and EdDSA issuer keys", full_len + 1, core.len(), if quick { "" } else { " / custom / reserved name" }), "sequences": long.len() * 2}));
     // holder
     for fmt in codec::FMTS {
         let Some(cred) = holder_cred(fmt) else {
@@ -366,22 +367,23 @@ pub fn run(rep: &Report) {
         let hs = sequences(ha.len(), full_len);
         par_for(rep, hs.len(), |i, l| run_holder_seq(&cred, &ha, &hs[i], l));
         rep.scope_done(json!({"scope": format!("holder built from a {} SD-JWT: every sequence of length <= {full_len} over the 12-operation alphabet (7 succeeding, 5 failing)", fmt.name()), "sequences": hs.len()}));
-        let hcore_ids: Vec<usize> = if quick { vec![2, 1, 3] } else { vec![2, 1, 3, 4] };
+        let hcore_ids: Vec<usize> = if quick { vec![2, 1, 3] } else { vec![2, 1, 3, 4, 11] };
         let hcore: Vec<HoldOp> = hcore_ids.iter().map(|i| ha[*i].clone()).collect();
-        let hl = sequences(hcore.len(), 8);
+        let hl = sequences(hcore.len(), long_len);
         par_for(rep, hl.len(), |i, l| {
             if hl[i].len() > full_len {
                 run_holder_seq(&cred, &hcore, &hl[i], l)
             }
         });
-        rep.scope_done(json!({"scope": format!("holder ({}): every sequence of length {}..8 over a {}-operation core", fmt.name(), full_len + 1, hcore.len()), "sequences": hl.len()}));
+        rep.scope_done(json!({"scope": format!("holder ({}): every sequence of length {}..{long_len} over a {}-operation core", fmt.name(), full_len + 1, hcore.len()), "sequences": hl.len()}));
         rep.sample(json!({"instance": format!("holder({})", fmt.name()), "sequence": hs[hs.len() / 3].iter().map(|i| ha[*i].name).collect::<Vec<_>>()}));
         // deep credential: failures deep inside the selection walk, then valid calls
         if let Some(dc) = deep_holder_cred(fmt) {
             let da = deep_holder_alphabet();
-            let dl = sequences(da.len(), if quick { 5 } else { 7 });
+            let deep_len = if quick { 5 } else { 7 };
+            let dl = sequences(da.len(), deep_len);
             par_for(rep, dl.len(), |i, l| run_holder_seq_on(&dc, &da, &dl[i], "deep", l));
-            rep.scope_done(json!({"scope": format!("holder ({}) of a credential nested 6 levels: every sequence of length <= {} over 6 operations (3 succeeding, 3 failing at depth 6 / 4 / after selecting)", fmt.name(), if quick { 6 } else { 8 }), "sequences": dl.len()}));
+            rep.scope_done(json!({"scope": format!("holder ({}) of a credential nested 6 levels: every sequence of length <= {} over 6 operations (3 succeeding, 3 failing at depth 6 / 4 / after selecting)", fmt.name(), deep_len), "sequences": dl.len()}));
         }
     }
     if rep.outcome_count("step_ok") == 0 || rep.outcome_count("failing_call_failed") == 0 {
